@@ -281,4 +281,89 @@ theorem C08_eqdc_inv_exact (c : EqdcC ℝ) (hs : c.sr.sphere = false) (ha : 0 < 
     C08_imlfn_fixed_unique c.e0 c.e1 c.e2 c.e3 lat lat' hdom hstat]
   rfl
 
+/-! ## aea / aeaPhi1z: the authalic `q` is strictly increasing in sin φ -/
+
+/-- `qsfnz e s` for `e > 1e-7`, as a function of `s` -/
+noncomputable def qOf (e s : ℝ) : ℝ :=
+  (1 - e * e) * (s / (1 - e * s * (e * s)) - (0.5 / e) * (log (1 - e * s) - log (1 + e * s)))
+
+theorem qOf_hasDerivAt (e s : ℝ) (he0 : 0 < e) (he1 : e < 1) (hs : s ∈ Icc (-1 : ℝ) 1) :
+    HasDerivAt (qOf e) ((1 - e * e) * 2 / ((1 - e * s) * (1 + e * s)) ^ 2) s := by
+  obtain ⟨hs1, hs2⟩ := hs
+  have hes1 : 0 < 1 - e * s := by nlinarith
+  have hes2 : 0 < 1 + e * s := by nlinarith
+  have hden : 1 - e * s * (e * s) ≠ 0 := by
+    have : 1 - e * s * (e * s) = (1 - e * s) * (1 + e * s) := by ring
+    rw [this]; exact (mul_pos hes1 hes2).ne'
+  have hnum : HasDerivAt (fun x : ℝ => 1 - e * x * (e * x)) (-(e * 1 * (e * s) + e * s * (e * 1))) s :=
+    ((((hasDerivAt_id s).const_mul e).mul ((hasDerivAt_id s).const_mul e))).const_sub 1
+  have h0 : HasDerivAt (fun x : ℝ => x / (1 - e * x * (e * x)))
+      ((1 * (1 - e * s * (e * s)) - s * (-(e * 1 * (e * s) + e * s * (e * 1)))) / (1 - e * s * (e * s)) ^ 2) s :=
+    (hasDerivAt_id s).div hnum hden
+  have h3 : HasDerivAt (fun x : ℝ => log (1 - e * x)) (-(e * 1) / (1 - e * s)) s :=
+    (((hasDerivAt_id s).const_mul e).const_sub 1).log (by simpa using hes1.ne')
+  have h4 : HasDerivAt (fun x : ℝ => log (1 + e * x)) ((e * 1) / (1 + e * s)) s :=
+    (((hasDerivAt_id s).const_mul e).const_add 1).log (by simpa using hes2.ne')
+  have h := (h0.sub ((h3.sub h4).const_mul (0.5 / e))).const_mul (1 - e * e)
+  have key : (1 - e * e) * ((1 * (1 - e * s * (e * s)) - s * (-(e * 1 * (e * s) + e * s * (e * 1)))) / (1 - e * s * (e * s)) ^ 2
+        - 0.5 / e * (-(e * 1) / (1 - e * s) - e * 1 / (1 + e * s)))
+      = (1 - e * e) * 2 / ((1 - e * s) * (1 + e * s)) ^ 2 := by
+    have b1 : (1 : ℝ) - e * s ≠ 0 := hes1.ne'
+    have b2 : (1 : ℝ) + e * s ≠ 0 := hes2.ne'
+    rw [show (1 : ℝ) - e * s * (e * s) = (1 - e * s) * (1 + e * s) by ring]
+    field_simp
+    ring
+  rw [← key]
+  exact h
+
+theorem qOf_strictMono (e : ℝ) (he0 : 0 < e) (he1 : e < 1) : StrictMonoOn (qOf e) (Icc (-1 : ℝ) 1) := by
+  apply strictMonoOn_of_deriv_pos (convex_Icc _ _)
+  · intro s hs
+    exact (qOf_hasDerivAt e s he0 he1 hs).continuousAt.continuousWithinAt
+  · intro s hs
+    rw [interior_Icc] at hs
+    rw [(qOf_hasDerivAt e s he0 he1 ⟨hs.1.le, hs.2.le⟩).deriv]
+    have hes1 : 0 < 1 - e * s := by nlinarith [hs.1, hs.2]
+    have hes2 : 0 < 1 + e * s := by nlinarith [hs.1, hs.2]
+    have : 0 < 1 - e * e := by nlinarith
+    positivity
+
+theorem qsfnz_eq_qOf (e s : ℝ) (he : 1.0e-7 < e) (hes1 : 0 < 1 - e * s) (hes2 : 0 < 1 + e * s) :
+    qsfnz e s = qOf e s := by
+  simp only [qsfnz, qOf, gt_real, he, decide_true, if_true, log_real, lit_one]
+  rw [Real.log_div hes1.ne' hes2.ne']
+
+/-- **uniqueness of the fixed point of `aeaPhi1z`**: a stationary `φ'` with `|φ'| < π/2` at
+`qs = qsfnz e (sin φ)` is the true latitude (1e-7 < e < 1, |φ| ≤ π/2). -/
+theorem C08_aeaPhi1z_fixed_unique (e phi phi' : ℝ) (he : 1.0e-7 < e) (he1 : e < 1) (hphi : |phi| ≤ π / 2)
+    (hphi' : |phi'| < π / 2) (h : aeaPhi1zStep e (qsfnz e (sin phi)) phi' = 0) : phi' = phi := by
+  have he0 : (0 : ℝ) < e := lt_trans (by norm_num) he
+  obtain ⟨a1, a2⟩ := abs_lt.mp hphi'
+  obtain ⟨b1, b2⟩ := abs_le.mp hphi
+  have hcos : cos phi' ≠ 0 := (cos_pos_of_mem_Ioo ⟨a1, a2⟩).ne'
+  have hsb : ∀ x : ℝ, 0 < 1 - e * sin x ∧ 0 < 1 + e * sin x := by
+    intro x; constructor <;> nlinarith [sin_le_one x, neg_one_le_sin x]
+  have hcom : 1 - e * sin phi' * (e * sin phi') ≠ 0 := by
+    have : 1 - e * sin phi' * (e * sin phi') = (1 - e * sin phi') * (1 + e * sin phi') := by ring
+    rw [this]; exact (mul_pos (hsb phi').1 (hsb phi').2).ne'
+  have hq := qsfnz_of_stationary e _ phi' he he1 hcos hcom h
+  rw [qsfnz_eq_qOf e _ he (hsb phi').1 (hsb phi').2, qsfnz_eq_qOf e _ he (hsb phi).1 (hsb phi).2] at hq
+  have hs : sin phi' = sin phi :=
+    (qOf_strictMono e he0 he1).injOn ⟨neg_one_le_sin _, sin_le_one _⟩ ⟨neg_one_le_sin _, sin_le_one _⟩ hq
+  exact injOn_sin ⟨a1.le, a2.le⟩ ⟨b1, b2⟩ hs
+
+/-- **aea_inv_exact** (ellipsoid, 1e-7 < e < 1, both cone signs): if `aeaPhi1z` stops in (−π/2, π/2)
+where its update is exactly zero, inverse(forward(λ, φ)) = (λ, φ). -/
+theorem C08_aea_inv_exact (k : AeaC ℝ) (hs : k.sr.sphere = false) (ha : 0 < k.sr.a) (hn : k.ns0 ≠ 0)
+    (he : 1.0e-7 < k.e3) (he1 : k.e3 < 1) (lon lat lat' : ℝ) (hlat : |lat| ≤ π / 2) (hlat' : |lat'| < π / 2)
+    (hpos : 0 < k.c - k.ns0 * qsfnz k.e3 (sin lat))
+    (hlon : |lon| ≤ sPi) (hdl : |lon - k.sr.long0| ≤ sPi)
+    (h1 : -π < k.ns0 * (lon - k.sr.long0)) (h2 : k.ns0 * (lon - k.sr.long0) ≤ π)
+    (hconv : aeaPhi1z k.e3 (qsfnz k.e3 (sin lat)) = .ok lat')
+    (hstat : aeaPhi1zStep k.e3 (qsfnz k.e3 (sin lat)) lat' = 0) :
+    (fwdAea k lon lat).bind (fun q => invAea k q.1 q.2) = .ok (lon, lat) := by
+  rw [aea_chain k hs ha hn lon lat hpos hlon hdl h1 h2, hconv,
+    C08_aeaPhi1z_fixed_unique k.e3 lat lat' he he1 hlat hlat' hstat]
+  rfl
+
 end GeomV.C08
